@@ -187,17 +187,34 @@ Proof.
   destruct Hp as [z Hp]. rewrite Hp, E, <- app_assoc in Hu. rewrite under_app in Hu. discriminate.
 Qed.
 
-Lemma create_file_get p f f' q : create_file p f = Some f' -> p <> [] ->
-  (q <> p -> fs_get q f' = fs_get q f)
-  /\ exists c, fs_get p f' = Some (File c) /\ (fs_get p f = Some (File c) \/ (fs_get p f = None /\ c = CEmpty)).
+Lemma fget_set_content p c f q :
+  fget q (set_content p c f)
+  = if path_eqb p q then match fget q f with Some (File _) => Some (File c) | x => x end else fget q f.
 Proof.
-  unfold create_file. intros H Hp. destruct (fs_get p f) as [[|c]|] eqn:E; [discriminate| |].
-  - inv H. split; [reflexivity|]. exists c. auto.
+  unfold set_content. induction f as [|[pe ne] f IH]; [simpl; destruct (path_eqb p q); reflexivity|].
+  cbn [map fst snd]. destruct (path_eqb pe p) eqn:E1.
+  - apply path_eqb_spec in E1. subst pe.
+    destruct ne as [|old]; rewrite !fget_cons; cbn [fst snd];
+      (destruct (path_eqb p q) eqn:E2; [reflexivity|exact IH]).
+  - rewrite !fget_cons. cbn [fst snd]. destruct (path_eqb pe q) eqn:E3.
+    + apply path_eqb_spec in E3. subst pe. rewrite path_eqb_false; [reflexivity|].
+      intros H. subst q. rewrite path_eqb_refl in E1. discriminate.
+    + exact IH.
+Qed.
+
+(** [create_file] of the code of record truncates: afterwards the file is empty. *)
+Lemma create_file_get p f f' q : create_file p f = Some f' -> p <> [] ->
+  (q <> p -> fs_get q f' = fs_get q f) /\ fs_get p f' = Some (File CEmpty).
+Proof.
+  unfold create_file, create_file_m, file_mode. intros H Hp. destruct (fs_get p f) as [[|c]|] eqn:E; [discriminate| |].
+  - inv H. split.
+    + intros Hq. destruct q as [|y q]; [reflexivity|]. rewrite !fs_get_fget by discriminate.
+      rewrite fget_set_content. rewrite path_eqb_false by congruence. reflexivity.
+    + rewrite fs_get_fget in * by assumption. rewrite fget_set_content, path_eqb_refl, E. reflexivity.
   - destruct (fs_is_dir (removelast p) f); [|discriminate]. inv H. split.
     + intros Hq. destruct q as [|y q]; [reflexivity|]. rewrite !fs_get_fget by discriminate.
       rewrite fget_cons. simpl. rewrite path_eqb_false by congruence. reflexivity.
-    + exists CEmpty. split; [|right; auto]. rewrite fs_get_fget by assumption. rewrite fget_cons. simpl.
-      rewrite path_eqb_refl. reflexivity.
+    + rewrite fs_get_fget by assumption. rewrite fget_cons. simpl. rewrite path_eqb_refl. reflexivity.
 Qed.
 
 Lemma fget_map_content p c f q :
@@ -299,14 +316,26 @@ Proof.
 Qed.
 
 (** ** [run]: composition and the states a crash can leave *)
-Lemma run_app a : forall b f,
-  run (a ++ b) f = if snd (run a f) then run b (fst (run a f)) else (fst (run a f), false).
+Lemma run_m_app m a : forall b f,
+  run_m m (a ++ b) f = if snd (run_m m a f) then run_m m b (fst (run_m m a f)) else (fst (run_m m a f), false).
 Proof.
-  induction a as [|o a IH]; intros b f; simpl; [destruct (run b f); reflexivity|].
-  destruct (exec o f) as [f'|].
+  induction a as [|o a IH]; intros b f; simpl; [destruct (run_m m b f); reflexivity|].
+  destruct (exec_m m o f) as [f'|].
   - apply IH.
   - destruct (best_effort o); [apply IH|reflexivity].
 Qed.
+Lemma run_app a b f :
+  run (a ++ b) f = if snd (run a f) then run b (fst (run a f)) else (fst (run a f), false).
+Proof. apply run_m_app. Qed.
+
+Lemma run_cons o rest f :
+  run (o :: rest) f = match exec o f with
+                      | Some f' => run rest f'
+                      | None => if best_effort o then run rest f else (f, false)
+                      end.
+Proof. reflexivity. Qed.
+Lemma run_nil f : run [] f = (f, true).
+Proof. reflexivity. Qed.
 
 Definition reach (ops : list fsop) (f f' : fs) : Prop := exists n, f' = fst (run (firstn n ops) f).
 
@@ -325,7 +354,7 @@ Lemma run_inv (P : fs -> Prop) ops :
   (forall o f f', In o ops -> P f -> exec o f = Some f' -> P f') ->
   forall f, P f -> P (fst (run ops f)).
 Proof.
-  induction ops as [|o ops IH]; intros Hs f Hp; [exact Hp|]. simpl.
+  induction ops as [|o ops IH]; intros Hs f Hp; [exact Hp|]. rewrite run_cons.
   destruct (exec o f) as [f'|] eqn:E.
   - apply IH; [intros; eapply Hs; eauto; right; assumption|]. eapply Hs; [left; reflexivity|eassumption|eassumption].
   - destruct (best_effort o); [apply IH; [intros; eapply Hs; eauto; right; assumption|assumption]|exact Hp].
@@ -343,3 +372,17 @@ Proof.
   intros Hs Hp [n ->]. apply run_inv; [|exact Hp].
   intros o g g' Hin. apply Hs. eapply in_firstn; eassumption.
 Qed.
+
+(** What [exec] is for each operation (the code of record). *)
+Lemma exec_mkparents p f : exec (OMkParents p) f = mk_parents p f. Proof. reflexivity. Qed.
+Lemma exec_create p f : exec (OCreateFile p) f = create_file p f. Proof. reflexivity. Qed.
+Lemma exec_write p c f : exec (OWrite p c) f = write_file p c f. Proof. reflexivity. Qed.
+Lemma exec_rename s d b f : exec (ORename s d b) f = rename s d f. Proof. reflexivity. Qed.
+Lemma exec_remove_tree p b f : exec (ORemoveTree p b) f = remove_tree p f. Proof. reflexivity. Qed.
+Lemma exec_remove_file p b f : exec (ORemoveFile p b) f = remove_file p f. Proof. reflexivity. Qed.
+Lemma exec_mkdir p f : exec (OMkdirAll p) f = mkdir_all p f. Proof. reflexivity. Qed.
+Lemma exec_fail f : exec OFail f = None. Proof. reflexivity. Qed.
+Lemma exec_rmsnap sd s f : exec (ORmSnapshotIn sd s) f = match find_snapshot_in sd s f with Some q => remove_file q f | None => Some f end.
+Proof. reflexivity. Qed.
+Lemma exec_archive s d f : exec (OArchive s d) f = match mkdir_all d f with Some f' => rename s d f' | None => None end.
+Proof. reflexivity. Qed.
